@@ -66,6 +66,10 @@ def gen_history(rng):
     from ssptools.masses import PowerLawIMF
     pool = {
         "d_empty": {}, "d_empty2": {}, "d_lin": {"slope": 0.4, "scale": 0.7, "m_lower": 19},
+        # same option NAMES, different values: a result must depend on the values it was given
+        "d_lin2": {"slope": 0.3, "scale": 0.7, "m_lower": 19}, "d_lin3": {"slope": 0.4, "scale": 0.2, "m_lower": 21},
+        "d_pl": {"exponent": 3, "slope": 3e-5, "scale": 14, "m_lower": 19}, "d_pl2": {"exponent": 2, "slope": 1e-3, "scale": 10, "m_lower": 19},
+        "d_wd": {"slope": 0.15, "scale": 0.5, "m_upper": 5.5}, "d_wd2": {"slope": 0.1, "scale": 0.45, "m_upper": 5.0},
         "imf": PowerLawIMF([0.1, 0.5, 1.0, 100], [-0.5, -1.3, -2.5], N0=5e5),
         "imf1": PowerLawIMF([0.1, 0.5, 1.0, 100], [-0.5, -1.3, -2.5]),          # own N0 = 1
         "nbins": [3, 3, 8], "tout": np.array([3000.0, 12000.0]), "tout1": [9000.0],
@@ -73,17 +77,29 @@ def gen_history(rng):
     }
     calls = []
     n = rng.choice([2, 3, 4, 5])
+    few = rng.sample([-2.0, -1.0, -0.5, 0.0, 0.2, 0.3], rng.choice([1, 2, 6]))   # repeats of one metallicity are likely
+
+    def analytic():
+        m = rng.choice(["linear", "linear", "powerlaw"])
+        return m, {"$h": rng.choice(["d_lin", "d_lin2", "d_lin3"] if m == "linear" else ["d_pl", "d_pl2"])}
     for _ in range(n):
-        feh = rng.choice([-2.0, -1.0, -0.5, 0.0, 0.2, 0.3])
+        feh = rng.choice(few)
         k = rng.choice(["IFMR", "IFMR", "EvolvedMF", "EvolvedMFWithBH", "from_IMF"])
         if k == "IFMR":
-            m = rng.choice(["banerjee20", "banerjee20", "cosmic-rapid", "linear"])
-            kw = {"$h": "d_lin"} if m == "linear" else rng.choice([{"$h": "d_empty"}, {"$h": "d_empty"}, None])
+            m = rng.choice(["banerjee20", "banerjee20", "cosmic-rapid", "linear", "linear", "powerlaw"])
+            kw = analytic()[1] if m == "linear" else {"$h": rng.choice(["d_pl", "d_pl2"])} if m == "powerlaw" else \
+                rng.choice([{"$h": "d_empty"}, {"$h": "d_empty"}, None])
             args = dict(FeH=feh, BH_method=m, BH_kwargs=kw, WD_kwargs=rng.choice([{"$h": "d_empty2"}, None]))
+            if rng.random() < 0.3:
+                args.update(WD_method="linear", WD_kwargs={"$h": rng.choice(["d_wd", "d_wd2"])})
         elif k == "EvolvedMF":
             args = dict(IMF={"$h": rng.choice(["imf", "imf1"])}, nbins={"$h": "nbins"}, FeH=feh, tout={"$h": rng.choice(["tout", "tout1"])},
                         esc_rate=rng.choice([0, -10.0]), N0=rng.choice([5e5, 2e5]), BH_IFMR_kwargs=rng.choice([{"$h": "d_empty"}, None]),
                         binning_breaks=rng.choice([{"$h": "breaks"}, None]), BH_ret_dyn=rng.choice([1.0, 0.7]))
+            if rng.random() < 0.5:
+                args["BH_IFMR_method"], args["BH_IFMR_kwargs"] = analytic()
+            if rng.random() < 0.25:
+                args.update(WD_IFMR_method="linear", WD_IFMR_kwargs={"$h": rng.choice(["d_wd", "d_wd2"])})
         elif k == "EvolvedMFWithBH":
             two = rng.random() < 0.7
             args = dict(IMF={"$h": "imf"}, nbins={"$h": "nbins"}, FeH=feh, tout={"$h": "tout" if two else "tout1"}, esc_rate=0,
@@ -93,13 +109,15 @@ def gen_history(rng):
             args = dict(IMF={"$h": "imf"}, nbins={"$h": "nbins"}, FeH=feh, natal_kicks=False)
             if rng.random() < 0.5:
                 args["BH_IFMR_kwargs"] = {"$h": "d_empty"}
+            if rng.random() < 0.5:
+                args["BH_IFMR_method"], args["BH_IFMR_kwargs"] = analytic()
         calls.append(dict(kind=k, args=args))
     return pool, calls
 
 
 def run(chk):
     rng = chk.rng
-    nh = 14 if chk.tier == "quick" else 120
+    nh = 24 if chk.tier == "quick" else 160
     jobs, records = [], []
     for hi in range(nh):
         pool, calls = gen_history(rng)
